@@ -54,6 +54,34 @@ func (p *stalePD) take() []*router.Region {
 	return p.w.hist[len(p.w.hist)-1-n]
 }
 
+// note classifies a stale answer against what the cache holds right now (coverage only): does it
+// describe a held region id with an older version, or with the held version and a lower conf version?
+func (p *stalePD) note(rs ...*router.Region) {
+	w := p.w
+	if !w.check {
+		return
+	}
+	for _, r := range rs {
+		if r == nil || r.Meta == nil {
+			continue
+		}
+		id, ver, conf := r.Meta.GetId(), r.Meta.GetRegionEpoch().GetVersion(), r.Meta.GetRegionEpoch().GetConfVer()
+		lowerVer, lowerConf := false, false
+		for i := range w.prev.Sorted {
+			e := &w.prev.Sorted[i]
+			if e.ID == id {
+				lowerVer = lowerVer || ver < e.Ver
+				lowerConf = lowerConf || (ver == e.Ver && conf < e.ConfVer)
+			}
+		}
+		if lowerVer {
+			w.st.staleLowerVer.Add(1)
+		} else if lowerConf {
+			w.st.staleLowerConf.Add(1)
+		}
+	}
+}
+
 func keyIn(start, end, key []byte) bool {
 	return bytes.Compare(start, key) <= 0 && (len(end) == 0 || bytes.Compare(key, end) < 0)
 }
@@ -69,7 +97,9 @@ func snapByKey(s []*router.Region, key []byte) *router.Region {
 
 func (p *stalePD) GetRegion(ctx context.Context, key []byte, opts ...opt.GetRegionOption) (*router.Region, error) {
 	if s := p.take(); s != nil {
-		return cloneRegion(snapByKey(s, key)), nil
+		r := cloneRegion(snapByKey(s, key))
+		p.note(r)
+		return r, nil
 	}
 	return p.Client.GetRegion(ctx, key, opts...)
 }
@@ -122,7 +152,9 @@ func scanSnap(s []*router.Region, start, end []byte, limit int) []*router.Region
 
 func (p *stalePD) ScanRegions(ctx context.Context, start, end []byte, limit int, opts ...opt.GetRegionOption) ([]*router.Region, error) {
 	if s := p.take(); s != nil {
-		return scanSnap(s, start, end, limit), nil
+		rs := scanSnap(s, start, end, limit)
+		p.note(rs...)
+		return rs, nil
 	}
 	//nolint:staticcheck
 	return p.Client.ScanRegions(ctx, start, end, limit, opts...)
@@ -171,7 +203,9 @@ func sameRegionList(a, b []*router.Region) bool {
 
 func (p *stalePD) BatchScanRegions(ctx context.Context, ranges []router.KeyRange, limit int, opts ...opt.GetRegionOption) ([]*router.Region, error) {
 	if s := p.take(); s != nil {
-		return batchScan(func(a, b []byte, l int) []*router.Region { return scanSnap(s, a, b, l) }, ranges, limit), nil
+		rs := batchScan(func(a, b []byte, l int) []*router.Region { return scanSnap(s, a, b, l) }, ranges, limit)
+		p.note(rs...)
+		return rs, nil
 	}
 	cp := append([]router.KeyRange{}, ranges...)
 	raw, err := p.Client.BatchScanRegions(ctx, cp, limit, opts...)
